@@ -40,6 +40,11 @@ fn alphabet(first_ttl: u8) -> Vec<Shape> {
         vec![Out::F, c(1)],
         vec![c(1), Out::F, c(1)],
         vec![Out::F, c(2), c(1)],
+        // a TCP probe found its port taken: the abandoned slot is Skipped and the same ttl goes
+        // out again under the next sequence - a skipped slot is not a hop position
+        vec![Out::S, c(1), c(1)],
+        vec![c(1), Out::S, c(1), c(1)],
+        vec![c(1), Out::S, Out::S, c(2), c(1)],
     ] {
         v.push(Shape { first_ttl, outs, largest_ttl: None });
     }
